@@ -33,11 +33,13 @@ static std::string exname(const std::exception& e)
 	std::string n(d ? d : typeid(e).name());
 	std::free(d);
 	const size_t p(n.rfind("::"));
-	return "throw:" + (p == std::string::npos ? n : n.substr(p + 2));
+	std::string r("throw:" + (p == std::string::npos ? n : n.substr(p + 2)));
+	if (std::getenv("VERIF_WHAT")) { r += "("; for (const char *c(e.what()); *c; ++c) r += *c == ' ' ? '_' : *c; r += ")"; }	// debugging aid only
+	return r;
 }
 
 // ---------------------------------------------------------------- schema dump
-static void dump_traits(const std::string& label, const MessageBase *m, int depth)
+static void dump_traits(const std::string& label, const MessageBase *m, int depth, GroupBase *parent=nullptr)
 {
 	std::ostringstream os;
 	os << label;
@@ -51,10 +53,11 @@ static void dump_traits(const std::string& label, const MessageBase *m, int dept
 	for (size_t i(0); i < groups.size(); ++i)
 	{
 		GroupBase *gb(m->find_group(groups[i]));
+		if (!gb) gb = const_cast<MessageBase *>(m)->find_add_group(groups[i], parent);
 		if (!gb) { std::ostringstream e; e << "nogroup " << groups[i]; out(e.str()); continue; }
 		MessageBase *el(gb->create_group(true));
 		std::ostringstream l; l << "group " << depth + 1 << ' ' << groups[i];
-		dump_traits(l.str(), el, depth + 1);
+		dump_traits(l.str(), el, depth + 1, gb);
 		delete el;
 	}
 	std::ostringstream e; e << "end " << depth; out(e.str());
@@ -110,7 +113,7 @@ static BaseField *mkfield(unsigned tag, const std::string& val)
 }
 
 // items until a closing token ("}" or end); groups recursive
-static void build_items(Parser& p, MessageBase *body, MessageBase *hdr, MessageBase *trl)
+static void build_items(Parser& p, MessageBase *body, MessageBase *hdr, MessageBase *trl, GroupBase *parent=nullptr)
 {
 	while (p.more())
 	{
@@ -129,14 +132,16 @@ static void build_items(Parser& p, MessageBase *body, MessageBase *hdr, MessageB
 		target->add_field(mkfield(tag, val));
 		if (isgrp)
 		{
+			// as the decoder does: a nested group that the deep constructor did not create is created through its parent group
 			GroupBase *gb(target->find_group(tag));
+			if (!gb && target->_fp.is_group(tag)) gb = target->find_add_group(tag, target == body ? parent : nullptr);
 			if (!gb) throw InvalidRepeatingGroup(tag);
 			while (p.more() && p.w[p.i] == "{")
 			{
 				++p.i;
 				MessageBase *el(gb->create_group(true));
 				*gb << el;
-				build_items(p, el, nullptr, nullptr);
+				build_items(p, el, nullptr, nullptr, gb);
 				if (p.more() && p.w[p.i] == "}") ++p.i;
 			}
 			if (p.more() && p.w[p.i] == "]") ++p.i;
